@@ -19,6 +19,7 @@ func Run(args []string) error {
 	out := fs.String("out", "", "trace ndjson")
 	twin := fs.Bool("twin", true, "query a twin store fed only the surviving history in lock step")
 	per := fs.Int("permethod", 8, "argument tuples per exported method in the generic battery")
+	rfq := fs.Int("readfaultqueries", 0, "proof queries with one failing read each, after every operation")
 	if err := fs.Parse(args); err != nil {
 		return err
 	}
@@ -36,7 +37,7 @@ func Run(args []string) error {
 		return err
 	}
 	defer os.RemoveAll(dir)
-	r := &runner{w: w, rng: rand.New(rand.NewSource(tr.Seed())), dir: dir, opts: Options{Twin: *twin, PerMethod: *per}}
+	r := &runner{w: w, rng: rand.New(rand.NewSource(tr.Seed())), dir: dir, opts: Options{Twin: *twin, PerMethod: *per, ReadFaultQueries: *rfq}}
 	for i, b := range bs {
 		var mk func(dir string, rng *rand.Rand) (kindDriver, error)
 		switch b.Kind {
